@@ -150,6 +150,10 @@ class CTMCUniformGrid(CTMCGrid):
         )
         nb_of_points_left = int(abs(l) / h)
         nb_of_points_right = int(r / h)
+        if nb_of_points_left < 2 or nb_of_points_right < 1:
+            raise ValueError(
+                "h is too large for the truncation bounds: -h and +h would not both be states of the grid"
+            )
         if nb_of_points_left + nb_of_points_right > 1e8:
             raise ValueError(
                 "the number of points is greater than 10M, choose a smaller value for the "
